@@ -12,6 +12,8 @@ Sub-checks
                tomographies (permuted testers), other parametrisations / types and data sets; every estimate must equal the fresh-object
                estimate, the reported loss must be the defining formula on the CURRENT tomography's predicted distributions, and no
                physical competitor may have a lower loss (measured with that formula, never with the re-used loss object).
+  flags      : the estimate must not depend on the reporting keywords (plain default call, computation time, detailed results, sequence call) and the
+               PLAIN estimate must be optimal; over-determined settings (qutrit QST, over-complete tester sets) with interior truths.
   cvx_est    : CVXPY-backed estimator (SCS): feasibility of its estimate, its reported loss = quara's loss at its point,
                agreement with backtracking, no competitor better beyond tolerance.
 Tolerances are collected in TOL below; they were calibrated on the unchanged tree (see harness/manifest/C11.json)."""
@@ -486,6 +488,12 @@ def chk_pgdb(ctx, case):
         vctx.violation(sub, site, "returned-not-last-iterate", "estimated_var differs from the last iterate of the history", case)
     if ("exceeds the limit" in printed) != (k == max_iter):
         vctx.violation(sub, site, "warning-flag", "max-iteration warning printed=%s but k=%d max=%d" % ("exceeds the limit" in printed, k, max_iter), case)
+    # every step size of the whole history (not only the replayed steps): 0 <= alpha <= 1 and a power of 1/2 (C11_backtracking_line_search_spec);
+    # alpha > 1 leaves the segment [x, P(..)] and with it the guarantee that the iterate is feasible
+    for i, a_ in enumerate(alphas):
+        if not (0.0 <= a_ <= 1.0) or (a_ > 0 and math.log2(a_) != round(math.log2(a_))):
+            vctx.violation(sub, site, "alpha-out-of-range", "step %d: alpha=%r is not 2^-c with c >= 0 (k=%d) (%s)" % (i, a_, k, label), case)
+            return
     # start = origin object (maximally mixed / identity over m / depolarising)
     # ---- monotone loss, feasibility of iterates
     for i in range(k):
@@ -1045,6 +1053,139 @@ def sub_reuse(ctx):
     ctx.note("reuse: %d histories; measured maxima: %s" % (len(cases), {k: float("%.3g" % v) for k, v in sorted(st.items())}))
 
 
+# ====================================================================================== reporting flags / default call path
+def chk_flags(ctx, case):
+    """the estimate must not depend on the reporting keywords: the plain call (defaults: no computation time, no detailed results), the three
+    other keyword combinations and calc_estimate_sequence must return the same variable; the PLAIN estimate must be optimal (defining formula
+    on the tomography's own predicted distributions) against truth, random physical points, the detailed-run estimate and the SCS solution.
+    Settings include over-determined tomographies (qutrit QST with 7 measurements, over-complete qubit / POVM tester sets) with interior truths."""
+    from quara.protocol.qtomography.standard.loss_minimization_estimator import LossMinimizationEstimator
+    from quara.minimization_algorithm.projected_gradient_descent_backtracking import (
+        ProjectedGradientDescentBacktracking as PGDB, ProjectedGradientDescentBacktrackingOption as PGDBO)
+    sub = "flags"
+    site = "LossMinimizationEstimator.calc_estimate"
+    m_ = ctx.get_model()
+    setup, para, lname = case["setup"], case["para"], case["loss"]
+    fam = "se" if lname in ("se", "fse") else "re"
+    qt, c, kind, m = get_setup(setup, para)
+    truth_full, empi = make_data(qt, kind, c, m, para, case["shots"], case["seed"], case["truth_seed"])
+    qs = [qq for _, qq in empi]
+    sig = ":" + lname + ":" + input_class(kind, para, m)
+    label = "%s-%s-%s-%s" % (setup, "eq" if para else "full", lname, case["shots"])
+    key = tuple(sorted((a, str(b)) for a, b in case.items()))
+    max_iter = case.get("max_iter", 1000)
+    stats = ctx.__dict__.setdefault("c11_stats_flags", {})
+
+    def stat(name, v):
+        stats[name] = max(stats.get(name, 0.0), float(v))
+
+    def call(seq, **kw):
+        loss, lo = make_loss(lname)
+        est, algo, ao = LossMinimizationEstimator(), PGDB(), PGDBO(max_iteration_optimization=max_iter)
+        with quiet(), warnings.catch_warnings():
+            warnings.simplefilter("ignore")
+            if seq:
+                r = est.calc_estimate_sequence(qt, [copy_data(empi)], loss, lo, algo, ao, **kw)
+                return r, np.array(r.estimated_var_sequence[0], dtype=float)
+            r = est.calc_estimate(qt, copy_data(empi), loss, lo, algo, ao, **kw)
+            return r, np.array(r.estimated_var, dtype=float)
+    r_det, x_det = call(False, is_computation_time_required=True, is_detailed_results_required=True)
+    conv = int(r_det.detailed_results[0].k) < max_iter
+    variants = [("plain call (default keywords)", False, {}),
+                ("is_computation_time_required=True", False, {"is_computation_time_required": True}),
+                ("is_detailed_results_required=True", False, {"is_detailed_results_required": True}),
+                ("calc_estimate_sequence, default keywords", True, {})]
+    x_plain = None
+    for name, seq, kw in variants:
+        _, xv = call(seq, **kw)
+        if x_plain is None:
+            x_plain = xv
+        dx = float(np.abs(xv - x_det).max()) if xv.shape == x_det.shape else float("inf")
+        stat("flag_dependence", dx)
+        if dx > 1e-9 * (1 + np.abs(x_det).max()):
+            ctx.violation(sub, site, "estimate-depends-on-reporting-flags" + sig,
+                          "%s: the estimate of the %s differs from the estimate of the call with computation time and detailed results by %.3g" % (label, name, dx), case)
+            break
+    if case.get("layouts"):
+        # data arrays as read-only, non-contiguous views (every second element of a larger buffer), integer shot counts as numpy ints; the
+        # same objects called twice with the caller modifying the returned array in place in between
+        bufs = []
+        views = []
+        for n_, q_ in empi:
+            big = np.zeros(2 * len(q_) + 1); big[1::2] = q_
+            v_ = big[1::2]; v_.flags.writeable = False
+            bufs.append(big.copy()); views.append((np.int64(n_), v_))
+        loss, lo = make_loss(lname)
+        est, algo, ao = LossMinimizationEstimator(), PGDB(), PGDBO(max_iteration_optimization=max_iter)
+        with quiet(), warnings.catch_warnings():
+            warnings.simplefilter("ignore")
+            try:
+                r1 = est.calc_estimate(qt, views, loss, lo, algo, ao)
+                x1 = np.array(r1.estimated_var, dtype=float)
+                ev = r1.estimated_var
+                if isinstance(ev, np.ndarray) and ev.flags.writeable:
+                    ev += 1.0                                    # the caller scribbles over the returned array
+                r2 = est.calc_estimate(qt, views, loss, lo, algo, ao)
+                x2 = np.array(r2.estimated_var, dtype=float)
+            except Exception as e:       # noqa
+                ctx.violation(sub, site, "raises-on-array-layout" + sig, "%s: read-only non-contiguous data arrays: %s: %s" % (label, type(e).__name__, str(e)[:200]), case)
+                return
+        for (n_, v_), b_ in zip(views, bufs):
+            if not np.array_equal(v_, b_[1::2]):
+                ctx.violation(sub, site, "mutates-data-argument" + sig, "%s: the empirical distributions passed in were modified" % label, case)
+                return
+        for nm_, xx in (("read-only non-contiguous data arrays", x1), ("second call after the caller modified the returned array in place", x2)):
+            dx = float(np.abs(xx - x_det).max())
+            stat("layout_dependence", dx)
+            if dx > 1e-9 * (1 + np.abs(x_det).max()):
+                ctx.violation(sub, site, "estimate-depends-on-array-layout-or-history" + sig, "%s: %s: estimate differs by %.3g" % (label, nm_, dx), case)
+                return
+    # the plain estimate against the property itself
+    ok, why = feasibility(ctx, kind, c, m, para, x_plain, TOL["psd"], TOL["eq"])
+    if not ok:
+        ctx.violation(sub, site, "estimate-infeasible" + sig, "%s: plain call: %s" % (label, why), case)
+        return
+    f_plain, inband = ref_loss(m_, fam, ref_probs(qt, x_plain), qs)
+    comps = [("truth", to_var(kind, para, truth_full)), ("detailed-run estimate", x_det)]
+    for j in range(3):
+        comps.append(("random%d" % j, to_var(kind, para, rand_object(kind, c, m, abs(case["truth_seed"]) * 31 + 7 + j))))
+    if para:
+        cv = run_cvx(setup, fam, case["shots"], case["seed"], case["truth_seed"])
+        comps.append(("scs", to_var(kind, para, cv["full"])))
+    if conv and not inband:
+        for name, z in comps:
+            okz, _ = feasibility(ctx, kind, c, m, para, z, TOL["cvx_psd"] if name == "scs" else TOL["psd"], 1e-6)
+            if not okz:
+                continue
+            fz, inb = ref_loss(m_, fam, ref_probs(qt, z), qs)
+            if inb:
+                continue
+            stat("opt_excess", max(0.0, f_plain - fz) / (1 + abs(f_plain)))
+            if f_plain - fz > TOL["opt"] * (1 + abs(f_plain)):
+                ctx.violation(sub, site, "not-optimal" + sig, "%s: plain call (default keywords): competitor %s has loss %.12g < loss of the estimate %.12g" % (label, name, fz, f_plain), case)
+                return
+    A = np.array(qt.calc_matA())
+    ctx.count(sub, key=key, nontrivial=conv and not inband, label="%s-%s" % (setup.split("/")[0], "overdetermined" if A.shape[0] - qt.num_schedules > qt.num_variables - (0 if para else 1) else "determined"))
+
+
+def sub_flags(ctx):
+    # interior truths: seed = 1 mod 3 gives full-rank states / channels (rand_object); over-determined settings first
+    grid = [("qst3", True, "fre", 100), ("qst1/xyzxz", True, "fre", 100), ("qst1/xyzxz", False, "fre", 1000),
+            ("povmt1/012301", True, "fre", 1000), ("qst1", False, "fse", 100)]
+    if not ctx.quick or getattr(ctx, "c11_est_tie_broken", False):
+        grid += [("qst3", False, "fre", 1000), ("qpt1", True, "fse", 1000), ("qst3", True, "re", 1000), ("qst3", True, "fse", 100), ("qst3", False, "se", 1000), ("qst3", True, "fre", 10 ** 5), ("qst1/xyzxz", False, "fre", 10 ** 4),
+                 ("qst1/zzxy", True, "fse", 100), ("povmt1/012301", False, "re", 100), ("povmt1m3/01230", False, "fre", 1000), ("qpt1", False, "fre", 100),
+                 ("qpt1/01231", True, "fre", 1000), ("qst1", True, "re", 0), ("povmt1", True, "fre", 10)] * 2
+    cases = []
+    for setup, para, lname, shots in grid:
+        cases.append({"setup": setup, "para": para, "loss": lname, "shots": shots, "seed": ctx.rng.randrange(10 ** 6),
+                      "truth_seed": 3 * ctx.rng.randrange(10 ** 5) + 1, "layouts": not setup.startswith("qst3") or not ctx.quick})
+    ctx.sample("flags", cases[0])
+    ctx.run_cases("flags", chk_flags, cases)
+    st = ctx.__dict__.get("c11_stats_flags", {})
+    ctx.note("flags: %d cases; measured maxima: %s" % (len(cases), {k: float("%.3g" % v) for k, v in sorted(st.items())}))
+
+
 # ====================================================================================== CVXPY linear maps
 def cvx_point(nvar, point):
     if point == "zero":
@@ -1258,8 +1399,8 @@ def sub_cvx_maps(ctx):
     ctx.run_cases("cvx_maps", chk_cvx_maps, cases)
 
 
-SUBS = [("cvx_maps", sub_cvx_maps), ("reuse", sub_reuse), ("pgdb", sub_pgdb), ("cvx_est", sub_cvx_est)]
-FNS = {"cvx_maps": chk_cvx_maps, "pgdb": chk_pgdb, "cvx_est": chk_cvx_est, "reuse": chk_reuse}
+SUBS = [("cvx_maps", sub_cvx_maps), ("reuse", sub_reuse), ("flags", sub_flags), ("pgdb", sub_pgdb), ("cvx_est", sub_cvx_est)]
+FNS = {"cvx_maps": chk_cvx_maps, "pgdb": chk_pgdb, "cvx_est": chk_cvx_est, "reuse": chk_reuse, "flags": chk_flags}
 
 
 def sub_corpus(ctx):
@@ -1295,8 +1436,10 @@ def regen_tie(ctx):
     r = subprocess.run([sys.executable, os.path.join(V, "gen", "c11_py2coq.py"), os.environ.get("VERIF_REPO", "/repo"), gen_v],
                        capture_output=True, text=True, timeout=120)
     if r.returncode != 0:
-        part = "cvx" if r.returncode == 4 else "pgdb"
-        first = next((t for t in thms if (t.startswith("gen_cvx") or t.startswith("gen_constraints") or t.startswith("gen_num")) == (part == "cvx")), thms[0])
+        part = {4: "cvx", 5: "estimator"}.get(r.returncode, "pgdb")
+        def part_of(t):
+            return "estimator" if t.startswith("gen_estimate") else ("cvx" if (t.startswith("gen_cvx") or t.startswith("gen_constraints") or t.startswith("gen_num")) else "pgdb")
+        first = next((t for t in thms if part_of(t) == part), thms[0])
         return False, {"theorem": first, "part": part, "error": "translator rejected the source (outside its subset): " + (r.stdout + r.stderr)[-600:]}
     q = ["-Q", os.path.join(V, "coq", "theories"), "QV", "-Q", scratch, "QVGen"]
     r = subprocess.run(["timeout", "300", "coqc"] + q + [gen_v], capture_output=True, text=True)
@@ -1344,8 +1487,11 @@ def run(ctx):
         # the tie is broken: widen the differential sweep to find a concrete failing input (up to 30 instead of 9 steps of every run are
         # replayed, the whole quick grid instead of half of it)
         thm = str(info2.get("theorem") or "")
-        part = info2.get("part") or ("cvx" if (thm.startswith("gen_cvx") or thm.startswith("gen_constraints") or thm.startswith("gen_num")) else "pgdb")
-        if part == "pgdb":
+        part = info2.get("part") or ("estimator" if thm.startswith("gen_estimate") else
+                                     ("cvx" if (thm.startswith("gen_cvx") or thm.startswith("gen_constraints") or thm.startswith("gen_num")) else "pgdb"))
+        if part == "estimator":
+            ctx.c11_est_tie_broken = True      # estimator wiring: the thorough-size grid of the `flags` sub-check
+        elif part == "pgdb":
             ctx.c11_tie_broken = True          # backtracking loop: whole quick grid, 30 steps per run
         else:
             ctx.c11_cvx_tie_broken = True      # CVXPY glue / loss expressions: more SCS cases (4 instead of 2 shot counts per setup and loss)
